@@ -21,7 +21,8 @@ RULE = ("(generated) 2..4 mappable species (start molecule 1..6 atoms incl. 1- a
         "of species gets an end molecule; rectangular or triclinic box; random title; scale in (0,2]; half of the cases "
         "run the real Monte-Carlo alignment (small STEPS_FACTOR) first; plus the error paths (extrapolating before "
         "the maps exist, with maps for only some complete species, with no complete species). (shipped) the BMIM/BF4 "
-        "box with both species, with one species, at two scales. Non-trivial = >=2 complete species interleaved, >=1 "
+        "box with both species, with one species, at two scales. (runs) a species of 2-3 residues per molecule in "
+        "uninterrupted runs of 255..2049 molecules, every written molecule compared with its own input molecule. Non-trivial = >=2 complete species interleaved, >=1 "
         "present-but-skipped species and >=1 start molecule with >=3 atoms. Distinct = sha1 of the case JSON.")
 ASSUMPTIONS = [
     "input files are written by the harness (3 decimals); output is parsed by the harness' own fixed-column reader",
@@ -457,10 +458,95 @@ def check_large(case):
     return {"units": (n, n), "classes": ["large"], "sample": {"molecules": n, "atoms_in": len(records), "atoms_out": exp_n}}
 
 
+# ------------------------------------------------------------------ long uninterrupted runs of a multi-residue species
+def run_cases(tier, seed):
+    runs = [255, 256, 257, 300, 511, 513, 1025, 2049] if tier == "thorough" else [257, 513]
+    return [{"run": r, "nres": 2 + (i % 2), "seed": int(seed) * 131 + i, "tail": [0, 2, 5][i % 3]} for i, r in enumerate(runs)], True
+
+
+def check_runs(case):
+    """One species with several residues per molecule, `run` instances in a row (batch sizes such as 256, 512, ...
+    are typical of read-ahead code), every written molecule compared with its own input molecule."""
+    rng = np.random.default_rng(case["seed"])
+    nres = case["nres"]
+    rn_s = ["DA", "DB", "DC"][:nres]
+    sizes_s = [1, 2, 1][:nres]
+    sizes_e = [2, 3, 2][:nres]
+
+    def spec(name, sizes, tag, step):
+        names, residues, k = [], [], 0
+        for r, sz in enumerate(sizes):
+            nm = ["%s%d" % (tag, k + i + 1) for i in range(sz)]
+            residues.append([rn_s[r], r + 1, nm])
+            k += sz
+        n = k
+        coords = [[step * i, 0.07 * (i % 2), 0.05 * (i % 3)] for i in range(n)]
+        return {"name": name, "edges": [[i, i + 1] for i in range(n - 1)], "residues": residues, "coords": coords}
+    D, De = spec("DIM", sizes_s, "C", 0.35), spec("DIM", sizes_e, "N", 0.16)
+    ION = {"name": "ION", "edges": [], "residues": [["IO", 1, ["Q1"]]], "coords": [[0, 0, 0]]}
+    IONe = {"name": "ION", "edges": [[0, 1]], "residues": [["IO", 1, ["O1", "O2"]]], "coords": [[0, 0, 0], [0.1, 0, 0]]}
+    layout = ["ION"] * 2 + ["DIM"] * case["run"] + ["ION"] + ["DIM"] * case["tail"] + ["ION"]
+    records, inst = [], []
+    resid = int(rng.integers(1, 50))
+    for nm in layout:
+        sp = D if nm == "DIM" else ION
+        shift = np.round(rng.uniform(0, 40, 3), 3)
+        coords = np.round(np.array(sp["coords"]) @ gen.random_rotation(rng).T + shift, 3)
+        rids, k = [], 0
+        for rn, _, names in sp["residues"]:
+            resid += 1
+            rids.append(resid)
+            for an in names:
+                records.append((resid, rn, an, len(records) + 1) + tuple(float(c) for c in coords[k]))
+                k += 1
+        inst.append((nm, coords, rids))
+    gro = env.fresh_path(".gro")
+    indep.write_gro(gro, "long runs", records, [40.0, 40.0, 40.0])
+    from vlib.build import write_spec_itp
+    man = lib("manager", Manager.from_files, gro, write_spec_itp(D), write_spec_itp(ION))
+    lib("end", man.add_end_molecule, build_molecule(De))
+    lib("end", man.add_end_molecule, build_molecule(IONe))
+    np.random.seed(case["seed"] % (2 ** 32))
+    lib("maps", man.calculate_exchange_maps, 0.7)
+    out = env.fresh_path(".gro")
+    lib("extrapolate", man.extrapolate_system, out)
+    recs = indep.read_gro(out)["records"]
+    exp_n = sum(sum(sizes_e) if nm == "DIM" else 2 for nm, _, _ in inst)
+    if len(recs) != exp_n:
+        raise PropertyViolation("atom-count", "run of %d: %d atoms written, expected %d" % (case["run"], len(recs), exp_n))
+    pos = 0
+    for m, (nm, coords, rids) in enumerate(inst):
+        espec = De if nm == "DIM" else IONe
+        sspec = D if nm == "DIM" else ION
+        ne = len(espec["coords"])
+        block = recs[pos:pos + ne]
+        pos += ne
+        exp_names = [(rn, an) for rn, _, names in espec["residues"] for an in names]
+        if [(r[1], r[2]) for r in block] != exp_names:
+            raise PropertyViolation("block-names", "run of %d: block %d is not a %s molecule" % (case["run"], m, nm))
+        exp_rids = [rids[r] for r, (_, _, names) in enumerate(espec["residues"]) for _ in names]
+        if [r[0] for r in block] != exp_rids:
+            raise PropertyViolation("block-resids", "run of %d molecules of %d residues: block %d carries residue numbers %r, "
+                                    "its input molecule has %r" % (case["run"], nres, m, [r[0] for r in block], exp_rids),
+                                    cls="block-resids:long-run")
+        if len(sspec["coords"]) >= 3:
+            mol = build_molecule(sspec, coords=coords, resids=rids)
+            exp = positions(man.molecule_correspondence[nm].exchange_map(mol))
+            got = np.array([r[4:7] for r in block], float)
+            if not np.abs(got - exp).max() <= HALF:
+                raise PropertyViolation("block-coordinates", "run of %d: block %d differs from the exchange map of its input "
+                                        "molecule by %.3e" % (case["run"], m, np.abs(got - exp).max()),
+                                        cls="block-coordinates:long-run")
+    return {"units": (len(inst), len(inst)), "classes": ["run:%d" % case["run"], "residues:%d" % nres],
+            "sample": dict(case, molecules=len(inst), atoms_out=exp_n)}
+
+
 SUBCHECKS = [
     Sub("generated", check, strategy=lambda tier: system_case(tier), quick=960, thorough=18000,
         min_share={"aligned": 0.12, "small-start": 0.1, "box:triclinic": 0.08}),
     Sub("shipped", check_shipped, enumerate=shipped_cases, note="shipped BMIM/BF4 box, three configurations"),
+    Sub("runs", check_runs, enumerate=run_cases,
+        note="a multi-residue species in uninterrupted runs of 257 / 513 (quick) and 255..2049 (thorough) molecules"),
     Sub("large", check_large, enumerate=large_cases, tiers=("thorough",),
         note="one system of 30000 molecules / >100000 written atoms: atom numbers beyond five digits"),
 ]
